@@ -481,6 +481,117 @@ def _r9(repo, ctx):
                    f'recorded as strong ones (or lost), so an acyclic '
                    f'document is rejected as cyclic or ordered wrongly',
                    fk.loc, sample=f'{new}.{fld} = {src}.{fld}')
+    # (b') every function of the tracer that derives a context from an
+    # existing one (constructs TracerContext from the fields of a context
+    # parameter) shares *all* the accumulators the constructor starts empty
+    # (`self.refs = set()`, `self.weak_refs = set()`): what is found while
+    # tracing inside the derived context must reach the caller
+    tc = repo.cls(f'{TRACER}.TracerContext')
+    init = tc.methods.get('__init__')
+    if init is None:
+        raise AnalysisError('C11.R9: TracerContext.__init__ not found')
+    accs = set()
+    for a in ast.walk(init.node):
+        t = a.targets[0] if isinstance(a, ast.Assign) else (
+            a.target if isinstance(a, ast.AnnAssign) else None)
+        if isinstance(t, ast.Attribute) and norm(t.value) == 'self' and \
+                a.value is not None and norm(a.value) in (
+                'set()', 'OrderedSet()', '[]', '{}'):
+            accs.add(t.attr)
+    accs = sorted(accs)
+    if len(accs) < 2:
+        raise AnalysisError(f'C11.R9: accumulators of TracerContext: {accs}')
+    n_der = 0
+    for f in repo.modules[TRACER].functions.values():
+        ps = f.params()
+        if not ps:
+            continue
+        for a in ast.walk(f.node):
+            if not (isinstance(a, ast.Assign) and isinstance(
+                    a.value, ast.Call) and call_name(
+                    a.value) == 'TracerContext' and isinstance(
+                    a.targets[0], ast.Name)):
+                continue
+            srcs = {norm(x.value) for k in a.value.keywords
+                    for x in ast.walk(k.value)
+                    if isinstance(x, ast.Attribute) and norm(x.value) in ps}
+            if len(srcs) != 1:
+                continue
+            psrc = srcs.pop()
+            nw = a.targets[0].id
+            n_der += 1
+            ctx.saw(f)
+            shared = {t.targets[0].attr for t in ast.walk(f.node)
+                      if isinstance(t, ast.Assign) and isinstance(
+                          t.targets[0], ast.Attribute) and norm(
+                          t.targets[0].value) == nw and norm(
+                          t.value) == f'{psrc}.{t.targets[0].attr}'}
+            for acc in accs:
+                ctx.ob('C11.R9', f'{f.name}:derived-context-shares-{acc}',
+                       acc in shared,
+                       f'{f.name} builds a tracer context from `{psrc}` '
+                       f'without sharing its `{acc}`: dependencies recorded '
+                       f'there while tracing inside the derived context '
+                       f'never reach the declaration being traced, so '
+                       f'whether it is ordered after what it reads depends '
+                       f'on the order of the document', f.loc,
+                       sample=f'{nw}.{acc} = {psrc}.{acc}')
+    if n_der < 2:
+        raise AnalysisError('C11.R9: derived tracer contexts not found')
+    # (b'') a context manager of the tracer whose yielded context callers
+    # assign to (`ctx.path_prefix = ...`, `ctx.module = ...` inside the with
+    # block) yields a copy on every path: otherwise the assignment leaks into
+    # the enclosing expression and names after a sub-statement resolve
+    # against the sub-statement's prefix
+    mgrs = {}
+    tm = repo.modules[TRACER]
+    for f in tm.functions.values():
+        if any(norm(d).endswith('contextmanager')
+               for d in f.node.decorator_list):
+            mgrs[f.name] = f
+    mutated = set()
+    for f in tm.functions.values():
+        for w in ast.walk(f.node):
+            if not isinstance(w, ast.With):
+                continue
+            for it in w.items:
+                c = it.context_expr
+                if isinstance(c, ast.Call) and call_name(c) in mgrs and \
+                        isinstance(it.optional_vars, ast.Name):
+                    v = it.optional_vars.id
+                    if any(isinstance(a, (ast.Assign, ast.AugAssign)) and any(
+                            isinstance(t, ast.Attribute) and norm(
+                                t.value) == v for t in (
+                                a.targets if isinstance(a, ast.Assign)
+                                else [a.target]))
+                           for b in w.body for a in ast.walk(b)):
+                        mutated.add(call_name(c))
+    if not mutated:
+        raise AnalysisError('C11.R9: no tracer context manager whose result '
+                            'is assigned to was found')
+    for name in sorted(mutated):
+        f = mgrs[name]
+        ctx.saw(f)
+        g = CFG(f.node)
+        p0 = f.params()[0]
+        ys = [n for n in g.nodes if n.kind == 'stmt' and n.ast is not None
+              and any(isinstance(x, ast.Yield) for x in ast.walk(n.ast))]
+        for y in ys:
+            yv = [x for x in ast.walk(y.ast) if isinstance(x, ast.Yield)][0]
+            nm = norm(yv.value) if yv.value is not None else ''
+            forks = [n.id for n in g.nodes if n.kind == 'stmt' and isinstance(
+                n.ast, ast.Assign) and norm(n.ast.targets[0]) == nm and
+                isinstance(n.ast.value, ast.Call) and call_name(
+                    n.ast.value) in ('_fork_context', 'TracerContext')]
+            ok = bool(forks) and g.always_before(y.id, forks)
+            ctx.ob('C11.R9', f'{name}:yields-a-copy', ok,
+                   f'{name} can yield the caller\'s own context (`{nm}` is '
+                   f'not rebound to a fork on every path) although callers '
+                   f'assign to the yielded context inside the with block: '
+                   f'the assignment (path prefix, module) leaks into the '
+                   f'enclosing expression and a later reference is resolved '
+                   f'against the wrong type, so its dependency is missed',
+                   f.loc, sample=f'{nm} = _fork_context({p0}) dominates yield')
     # (c)
     ap = repo.func('edb.schema.ddl.apply_sdl')
     ctx.saw(ap)
